@@ -36,7 +36,7 @@ def make_case(seed, tier):
     else:
         knobs = gen.Knobs(items=r.choice([3, 5]), members=r.choice([4, 8]), ns_depth=r.choice([1, 2, deep]), inst_len=3)
         mod = gen.WildGen(seed, knobs, multiline_defaults=False, typedefs=True, typedef_same_ns=True, param_use=0.3, this_use=0.05,
-                          class_template_p=0.3, operators=False, dunders=False, includes=True, special_names=0.05,
+                          class_template_p=0.3, operators=False, dunders=False, includes=True, special_names=0.15,
                           class_enums=True, enum_namesakes=0.3, ns_namesakes=0.25).module()
         kind = 'wild'
     cls = []
